@@ -24,7 +24,7 @@ FN_NAMES = {
 }
 PROPS = {
     "C09": set(range(301, 308)) | {372, 381, 382} | {321, 322, 323, 331, 332, 335},
-    "C10": set(range(301, 308)) | {381, 382},
+    "C10": set(range(301, 308)) | {381, 382} | {331, 332, 333, 334},
     "C11": set(range(311, 318)) | {333, 334},
     "C12": {351, 352, 353, 354, 355, 361, 362, 363, 364},
     "C13": {371, 372, 373},
